@@ -12,7 +12,8 @@ position = (x - lo) * 0.99 / (hi - lo) + 0.005 with lo / hi fixed at learning, r
 removed <=> a coordinate outside [0.0049, 0.9951]; removed samples reported; class = label of the FIRST
 maximal density at that position; unlabelled samples excluded from the summary; wrong / total / percentage;
 stored scaling and earlier results unchanged by later calls; re-evaluation of earlier data at the end of the
-history gives the same classes; `evaluate()` stays consistent after `test_data`.
+history gives the same classes; `evaluate()` stays consistent after `test_data`; `test_data` collects the set-aside and the
+tested samples in `_omitted_data` / `_testing_data`.
 """
 import contextlib
 import copy
@@ -695,6 +696,7 @@ class Runner:
         prestr = "-" if pre is None else "%s,%s" % (F(str(pre[0])), F(str(pre[1])))
         dstr = fmt_data([(row[:-1], row[-1]) for row in rows])
         before_classes = list(clf.get_calculated_classes_testset())
+        before_sizes = (clf._omitted_data.get_length(), clf._testing_data.get_length())
         before_results = copy.deepcopy([(h["classes"], h["coords"]) for h in self.history])
         live_results = [(h["classes_live"], h["coords_live"]) for h in self.history]
         impl_err = None
@@ -757,6 +759,13 @@ class Runner:
         n_removed = len(rows) - len(kept_impl)
         # ---- oracle
         self.oracle_op(op, rows, pos, kept_impl, classes_now, res, reported, n_removed, tags)
+        if op["op"] == "test":
+            # bookkeeping: set-aside samples are collected, tested samples join the object's test set (pure attribute reads)
+            n_unl = sum(1 for _, l in kept_impl if l == -1)
+            now = (clf._omitted_data.get_length(), clf._testing_data.get_length())
+            if now != (before_sizes[0] + n_unl, before_sizes[1] + n_new):
+                self.viol("test-bookkeeping", {"op": "test"}, {"omitted_testing_before": before_sizes, "now": now,
+                                                                "set_aside": n_unl, "tested": n_new})
         # ---- model: the exact coordinates the samples get; feed the density rows read from the implementation
         if self.model_on:
             self.model_op(op, rows, prestr, dstr, mpts, kept_impl, classes_now, res, reported)
